@@ -314,7 +314,8 @@ Proof.
     destruct (msb_bits_nonempty (if mr_unstuff s then 7 else 8) d ltac:(destruct (mr_unstuff s); lia)) as [b1 [q1 Eb]].
     rewrite Eb in *. cbn [app] in Hrepr. inversion Hrepr as [[E1 E2]].
     eexists. split; [reflexivity|]. cbn [mr_data mr_size mr_unstuff mr_k mr_runs mr_bitbuf].
-    split; [split; [exact Hr0| unfold zlen in *; cbn [length] in Hsize; lia]|].
+    split.
+    { split; [exact Hr0|]. Show. unfold zlen in *; cbn [length] in Hsize; lia. }
     split; [|split; reflexivity].
     unfold o_prev. cbn [mr_data mr_size mr_unstuff mr_k mr_runs mr_bitbuf]. f_equal.
     apply unstuff_prev_eq. destruct (d =? 255); reflexivity.
